@@ -3,8 +3,8 @@
 From Coq Require Import List NArith ZArith Bool Lia.
 Import ListNotations.
 
-Definition cp := N.
-Definition text := list cp.
+Notation cp := N (only parsing).
+Notation text := (list N) (only parsing).
 
 (* `rest.startswith(lit)`: returns the remainder after `lit` when `lit` is a prefix. *)
 Fixpoint strip_prefix (lit rest : text) : option text :=
